@@ -118,6 +118,7 @@ type Stats struct {
 	SelectMultiReady   int64 // ... with more than one ready clause (a recorded decision)
 	SelectHandover     int64 // ... completed directly between two selects
 	CondWaits          int64
+	ChildAbove         int64 // library goroutines given a priority above their parent's (PCT): they run first
 }
 
 // Event is one record of the trace ring.
